@@ -607,6 +607,7 @@ func (g *Gen) execAll() {
 			}
 		}
 	}
+	cellRefs := map[string][]string{}
 	for _, fv := range fn.FreeVars {
 		v, inv := g.freshVal(fv.Type(), "fv_"+fv.Name())
 		// a free variable is a pointer to the captured variable
@@ -615,6 +616,11 @@ func (g *Gen) execAll() {
 			// reads and writes it, it lives in a heap component of its own (no aliasing with []T elements)
 			pv.RootKey = "cell:" + pv.RootKey
 			v = pv
+			// different captured variables are different cells
+			for _, prev := range cellRefs[pv.RootKey] {
+				g.assume(st, "(not (= "+pv.Ref+" "+prev+"))")
+			}
+			cellRefs[pv.RootKey] = append(cellRefs[pv.RootKey], pv.Ref)
 		}
 		g.regs[fv] = v
 		g.paramVals[fv.Name()] = v
